@@ -304,7 +304,16 @@ func (l *Ledger) applyExp(cau consensus.ApplyUpdate) {
 		switch {
 		case d.Created && d.Resolved:
 		case d.Resolved:
-			remove(fc.FileContract.WindowEnd, fc.ID)
+			// the diff of a block that revises and resolves the contract carries the revised
+			// contract: the entry is filed under the window end the contract had before the block
+			for h, lst := range l.Exp {
+				for _, id := range lst {
+					if id == fc.ID {
+						remove(h, fc.ID)
+						break
+					}
+				}
+			}
 		case d.Revision != nil:
 			if d.Revision.WindowEnd != fc.FileContract.WindowEnd {
 				remove(fc.FileContract.WindowEnd, fc.ID)
